@@ -121,7 +121,7 @@ def _kwargs(p, seed):
 
 
 def _inst(instance):
-    return [[name_codes(instance.name)], common.spec_of_instance(instance)]
+    return [name_codes(instance.name), common.spec_of_instance(instance)]
 
 
 def name_codes(s):
@@ -201,7 +201,7 @@ class C19(Check):
                        ">= 2 machines; distinct = distinct SHA1 of the whole case")
 
     def budget(self):
-        return 2600 if self.tier == "quick" else 40000
+        return 6000 if self.tier == "quick" else 60000
 
     def search_budget(self):
         return 6000 if self.tier == "quick" else 40000
@@ -443,7 +443,8 @@ class C19(Check):
                                 out = [4]
                         elif kind == 4:
                             if case["params"][pidx][11] < 0:
-                                out = [6]
+                                iter(g)        # list() would not end; only __iter__
+                                out = [0]
                             else:
                                 out = [2, [_inst(x) for x in list(g)]]
                         elif kind == 6:
@@ -465,14 +466,33 @@ class C19(Check):
         return [out_events, own, sorted(set(ctl.unmodelled))]
 
     # ------------------------------------------------------------------ model
+    @classmethod
+    def _walk(cls, case, obs):
+        """Yields (idx, ev, out, draws, i, p, cnt): i = generator index if it exists when the event
+        happens (else None), p = its parameter record, cnt = number of names it has handed out so far
+        (None when unknown: a list(gen) that raised may have generated some instances before)."""
+        live = []
+        cnts = []
+        for idx, (ev, (out, draws)) in enumerate(zip(case["events"], obs[0])):
+            if ev[0] == 0:
+                if out == [0]:
+                    live.append((ev[1], ev[2]))
+                    cnts.append(0)
+                yield idx, ev, out, draws, None, None, None
+            elif ev[0] == 5 or ev[1] >= len(live):
+                yield idx, ev, out, draws, None, None, None
+            else:
+                i = ev[1]
+                p = case["params"][live[i][0]]
+                yield idx, ev, out, draws, i, p, cnts[i]
+                if cnts[i] is not None:
+                    cnts[i] += len(cls._instances(out))
+                if ev[0] == 4 and p[11] >= 0 and out[0] != 2:
+                    cnts[i] = None
+
     @staticmethod
     def _live(case, obs):
-        """Generator index -> (params index, seed) for the constructions that succeeded."""
-        live = []
-        for ev, (out, _) in zip(case["events"], obs[0]):
-            if ev[0] == 0 and out == [0]:
-                live.append((ev[1], ev[2]))
-        return live
+        return [(ev[1], ev[2]) for ev, (out, _) in zip(case["events"], obs[0]) if ev[0] == 0 and out == [0]]
 
     @staticmethod
     def _action(ev, p):
@@ -486,63 +506,15 @@ class C19(Check):
         if k == 3:
             return [2]
         if k == 4:
-            return [3, p[11] + 1]
+            return [3, p[11] + 1] if p[11] >= 0 else [1]
         return [4, [] if ev[2] == -1 else [ev[2]]]
-
-    def model_requests(self, case, obs):
-        evs, own, _ = obs
-        live = self._live(case, obs)
-        mparams = [model_params(p) for p in case["params"]]
-        glob = [v for _, draws in evs for rid, v in draws if rid == 0]
-        own_streams = []
-        for rids in own:
-            own_streams.append([v for _, draws in evs for rid, v in draws if rid in rids])
-        mevents = []
-        calls = []
-        shapes = []
-        k = 0
-        gi = 0
-        counters = [0] * len(live)
-        for ev, (out, draws) in zip(case["events"], evs):
-            kind = ev[0]
-            if kind == 0:
-                if out == [0]:
-                    seeded = ev[2] >= 0
-                    mevents.append([0, ev[1], [own_streams[gi]] if seeded else [], k])
-                    gi += 1
-                else:
-                    mevents.append([0, ev[1], [], k])
-            elif kind == 5:
-                mevents.append([2, k])
-            else:
-                i = ev[1]
-                if i < len(live):
-                    p = case["params"][live[i][0]]
-                    if kind == 4 and p[11] < 0:
-                        act = [1]     # never generated; harmless placeholder (iter)
-                    else:
-                        act = self._action(ev, p)
-                    mevents.append([1, i, act])
-                    if kind in (1, 6, 8):
-                        calls.append([model_params(p), counters[i], 0, act, [v for _, v in draws]])
-                    for name, inst in self._instances(out):
-                        counters[i] += 1
-                        shapes.append([model_params(self._effective(p, ev)), inst])
-                else:
-                    mevents.append([1, i, [1]])
-            k += sum(1 for rid, _ in draws if rid == 0)
-        targets = [[model_params(case["params"][live[ev[1]][0]]), ev[3]]
-                   for ev in case["events"] if ev[0] == 8 and ev[1] < len(live)]
-        names = []
-        return [(1901, [mparams, glob, mevents]), (1902, calls), (1903, shapes),
-                (1904, [names, mparams + [s[0] for s in shapes]]), (1903, targets), (1905, targets)]
 
     @staticmethod
     def _instances(out):
         if out and out[0] == 1:
-            return [(out[1][0], out[2])]
+            return [(out[1], out[2])]
         if out and out[0] == 2:
-            return [(x[0][0], x[1]) for x in out[1]]
+            return [(x[0], x[1]) for x in out[1]]
         return []
 
     @staticmethod
@@ -555,6 +527,42 @@ class C19(Check):
             if ev[3] >= 0:
                 q[2] = q[3] = ev[3]
         return q
+
+    def model_requests(self, case, obs):
+        evs, own, _ = obs
+        nlive = len(self._live(case, obs))
+        mparams = [model_params(p) for p in case["params"]]
+        glob = [v for _, draws in evs for rid, v in draws if rid == 0]
+        own_streams = [[v for _, draws in evs for rid, v in draws if rid in rids] for rids in own]
+        mevents, calls, shapes, targets = [], [], [], []
+        names = [[] for _ in range(nlive)]
+        k = 0
+        gi = 0
+        for idx, ev, out, draws, i, p, cnt in self._walk(case, obs):
+            kind = ev[0]
+            if kind == 0:
+                if out == [0]:
+                    mevents.append([0, ev[1], [own_streams[gi]] if ev[2] >= 0 else [], k])
+                    gi += 1
+                else:
+                    mevents.append([0, ev[1], [], k])
+            elif kind == 5:
+                mevents.append([2, k])
+            elif i is None:
+                mevents.append([1, ev[1], [1]])
+            else:
+                act = self._action(ev, p)
+                mevents.append([1, i, act])
+                if kind in (1, 6, 8):
+                    calls.append([model_params(p), cnt or 0, 0, act, [v for _, v in draws]])
+                if kind == 8:
+                    targets.append([model_params(p), ev[3]])
+                for name, inst in self._instances(out):
+                    names[i].append(name)
+                    shapes.append([model_params(self._effective(p, ev)), inst])
+            k += sum(1 for rid, _ in draws if rid == 0)
+        return [(1901, [mparams, glob, mevents]), (1902, calls), (1903, shapes),
+                (1904, [names, mparams + [s[0] for s in shapes]]), (1903, targets), (1905, targets)]
 
     # ------------------------------------------------------------------ judgement
     def judge(self, case, obs, outs):
@@ -572,12 +580,6 @@ class C19(Check):
             o = list(out)
             if ev[0] == 8 and o and o[0] == 1:
                 o = o[:3]
-            if ev[0] == 4 and ev[1] < len(live) and case["params"][live[ev[1]][0]][11] < 0:
-                o = [0]
-            if o and o[0] == 1:
-                o = [1, o[1][0], o[2]]
-            elif o and o[0] == 2:
-                o = [2, [[x[0][0], x[1]] for x in o[1]]]
             elif o and o[0] == 7:
                 o = [7]
             impl_outs.append(o)
@@ -591,61 +593,47 @@ class C19(Check):
             if glob_left != 0 or any(x != 0 for x in own_left):
                 fails.append(Failure("tie", "scenario-draws", "draws recorded but not consumed by the model",
                                      expected=0, observed=[glob_left, own_left]))
-        # --- tie 2: single calls under the draws recorded during the call
-        ci = 0
-        si = 0
-        ti = 0
-        counters = [0] * len(live)
-        per_gen_names = [[] for _ in live]
+        # --- tie 2 (single calls under the draws recorded during the call) and the oracles
+        ci = si = ti = 0
         per_gen_outs = [[] for _ in live]
-        for idx, (ev, (out, draws)) in enumerate(zip(case["events"], evs)):
-            kind = ev[0]
-            if kind in (0, 5) or ev[1] >= len(live):
+        for idx, ev, out, draws, i, p, cnt in self._walk(case, obs):
+            if i is None:
                 continue
-            i = ev[1]
-            p = case["params"][live[i][0]]
+            kind = ev[0]
             if kind in (1, 6, 8):
                 mo, left, _, _ = calls[ci]
                 ci += 1
                 a = impl_outs[idx]
+                if cnt is None and a and mo and a[0] == 1 and mo[0] == 1:
+                    a, mo = [1, a[2]], [1, mo[2]]       # counter unknown: compare the instance only
                 if a != mo or left != 0:
                     fails.append(Failure("tie", "single-call", f"event #{idx} {self._short(ev)}: the model under "
                                          "the recorded draws differs from the implementation",
                                          expected=[mo, left], observed=[a, 0]))
             if kind == 8:
-                # the target has the requested shape (oracle on the harness' own target), the model's
-                # stream for it is the one we forced, and the implementation must produce it
-                tcl = tshapes[ti]
-                tstream = tenc[ti]
+                # the target has the requested shape (extracted predicate), its stream is the model's
+                # [encode], and the implementation driven by that stream must produce it
+                tcl, tstream = tshapes[ti], tenc[ti]
                 ti += 1
                 if not all(tcl) or tstream != ev[2]:
                     fails.append(Failure("tie", "forced-target", "harness target is not of the requested shape "
                                          "or its stream differs from the model's encode",
                                          expected=tstream, observed=[tcl, ev[2]]))
-                elif out[0] == 7 and out[1] == 1 and out[2] < len(ev[3][0] if ev[3] else []) \
-                        and all(0 <= m < len(ev[3][0]) for m in out[3]):
+                elif out[0] == 7 and out[1] == 1:
                     fails.append(Failure(
                         "oracle", "machines-drawn-from-all-M",
-                        f"event #{idx}: machine {out[2]} (< M = {len(ev[3][0])}) can never be chosen: the "
-                        f"operation's machines are drawn from {out[3]} only",
-                        expected=ev[3], observed=out))
-                elif out[0] == 7 and out[1] == 0 and self._size_draw(case, evs, idx, out):
-                    fails.append(Failure(
-                        "oracle", "every-shape-reachable",
-                        f"event #{idx}: the size {out[2]} of an instance of the requested shape can never be "
-                        f"drawn: the code draws it from {out[3]}", expected=ev[3], observed=out))
+                        f"event #{idx}: machine {out[2]} of an operation of a well-shaped target with "
+                        f"M = {len(ev[3][0]) if ev[3] else 0} can never be chosen: the code draws that "
+                        f"operation's machines from {out[3]}", expected=ev[3], observed=out))
                 elif out[0] != 1 or out[2] != ev[3] or out[3] != 0:
                     fails.append(Failure("tie", "forced-stream", f"event #{idx}: the implementation driven by "
                                          "the stream of the target did not return the target",
                                          expected=ev[3], observed=out))
-            insts = self._instances(out)
-            for name, inst in insts:
-                counters[i] += 1
+            for name, inst in self._instances(out):
                 cl = shapes[si]
                 eff = self._effective(p, ev)
                 wf = nameres[1][len(case["params"]) + si]
                 si += 1
-                per_gen_names[i].append(name)
                 if wf:
                     for cname, ok in zip(CLAUSES, cl):
                         if not ok:
@@ -657,12 +645,11 @@ class C19(Check):
             if kind == 4 and p[11] >= 0 and out[0] == 2 and len(out[1]) != p[11]:
                 fails.append(Failure("oracle", "iteration-limit",
                                      f"event #{idx}: len(list(gen)) = {len(out[1])}, iteration_limit = {p[11]}"))
-            per_gen_outs[i].append((self._short(ev)[:1] + self._short(ev)[2:], impl_outs[idx], idx))
-        # --- names never reused by a generator
-        for i, names in enumerate(per_gen_names):
-            if len(set(map(tuple, names))) != len(names):
-                fails.append(Failure("oracle", "names-distinct", f"generator {i} reused a name",
-                                     observed=["".join(map(chr, n)) for n in names]))
+            per_gen_outs[i].append((ev[:1] + ev[2:], impl_outs[idx], idx))
+        # --- names never reused by a generator (extracted nodup on each generator's names)
+        for i, ok in enumerate(nameres[0]):
+            if not ok:
+                fails.append(Failure("oracle", "names-distinct", f"generator {i} reused a name"))
         # --- same parameters, same seed => same sequence (as far as both were asked the same)
         for i in range(len(live)):
             for j in range(i + 1, len(live)):
@@ -678,11 +665,6 @@ class C19(Check):
                                 expected=o1, observed=o2))
                             break
         return fails
-
-    @staticmethod
-    def _size_draw(case, evs, idx, out):
-        """The forced value refused by a randint was the 1st or 2nd draw of the call (J or M)."""
-        return len(evs[idx][1]) <= 1
 
     @staticmethod
     def _short(ev):
